@@ -253,7 +253,10 @@ def check_case(ctx, cfg, l, f, case, res, stats):
             err = abs(v - e * U)
             stats[name] = max(stats.get(name, 0.0), err / 4)
             if err > 4 + 1e-3 * (1 + abs(x) * 2.0 ** -20):
-                ok = fail('sincos-bound fn=%s |x|%s128' % (name, '<' if abs(x) < 128 else '>='), e * U, 4, err) and ok
+                # known cause (F-C02-3): the argument reduction multiplies by 1/(2 pi) rounded to f+6 bits, which adds an
+                # error of about |x|/64 units whatever f is; anything beyond twice that is a different failure
+                cls = 'arg-reduction-error<=|x|/32' if err <= 4 + abs(x) / 32 else 'excess'
+                ok = fail('sincos-bound fn=%s %s' % (name, cls), e * U, 4, err) and ok
         return ok
     return True
 
